@@ -386,7 +386,79 @@ func (c *FuncCtx) assumeInvariants(st *State, ls *LoopSpec) {
 	}
 }
 
+// rowLoopAsRange: a counting loop `for i := 0; i < E; i++ { BODY }` under a rowloop contract is the range loop
+// `for i := range E { BODY }` (the form the row-loop rule is written for), provided BODY assigns neither i nor
+// anything E reads: the bound is then the same at every test.  Which of the two forms the code uses is a matter
+// of style (a refactoring from one to the other must not raise an alarm).
+func (c *FuncCtx) rowLoopAsRange(n *ast.ForStmt) *ast.RangeStmt {
+	init, ok := n.Init.(*ast.AssignStmt)
+	if !ok || init.Tok != token.DEFINE || len(init.Lhs) != 1 || len(init.Rhs) != 1 {
+		return nil
+	}
+	iv, ok := init.Lhs[0].(*ast.Ident)
+	if !ok {
+		return nil
+	}
+	if lit, ok := init.Rhs[0].(*ast.BasicLit); !ok || lit.Value != "0" {
+		return nil
+	}
+	cond, ok := n.Cond.(*ast.BinaryExpr)
+	if !ok || cond.Op != token.LSS {
+		return nil
+	}
+	if x, ok := cond.X.(*ast.Ident); !ok || x.Name != iv.Name {
+		return nil
+	}
+	post, ok := n.Post.(*ast.IncDecStmt)
+	if !ok || post.Tok != token.INC {
+		return nil
+	}
+	if x, ok := post.X.(*ast.Ident); !ok || x.Name != iv.Name {
+		return nil
+	}
+	// the body assigns neither the counter nor a variable of the bound
+	boundVars := map[string]bool{iv.Name: true}
+	ast.Inspect(cond.Y, func(m ast.Node) bool {
+		if id, ok := m.(*ast.Ident); ok {
+			boundVars[id.Name] = true
+		}
+		return true
+	})
+	clean := true
+	ast.Inspect(n.Body, func(m ast.Node) bool {
+		switch x := m.(type) {
+		case *ast.AssignStmt:
+			for _, l := range x.Lhs {
+				if id, ok := l.(*ast.Ident); ok && boundVars[id.Name] && x.Tok != token.DEFINE {
+					clean = false
+				}
+			}
+		case *ast.IncDecStmt:
+			if id, ok := x.X.(*ast.Ident); ok && boundVars[id.Name] {
+				clean = false
+			}
+		case *ast.UnaryExpr:
+			if x.Op == token.AND {
+				if id, ok := x.X.(*ast.Ident); ok && boundVars[id.Name] {
+					clean = false
+				}
+			}
+		}
+		return clean
+	})
+	if !clean {
+		return nil
+	}
+	return &ast.RangeStmt{For: n.For, Key: iv, Tok: token.DEFINE, TokPos: init.TokPos, X: cond.Y, Body: n.Body}
+}
+
 func (c *FuncCtx) execFor(fr *frame, n *ast.ForStmt, st *State, k func(*State)) {
+	if rl, ok := c.con.RowLoops[c.loopOrd[n]]; ok {
+		if rs := c.rowLoopAsRange(n); rs != nil {
+			c.execRowLoop(fr, rs, rl, c.loopOrd[n], st, k)
+			return
+		}
+	}
 	ls, ord := c.loopSpec(n)
 	depth := len(st.scope)
 	exit := func(s *State) {
@@ -943,6 +1015,32 @@ func (c *FuncCtx) evalBuiltin(st *State, n *ast.CallExpr, name string) []Value {
 		// earlier append): modelled as a reallocation, the old elements followed by the new one.  The
 		// in-place case of Go differs only for other slices sharing the backing array, which do not
 		// exist for storage that never left the function (checked: the operand's storage is fresh).
+		if len(n.Args) == 2 && n.Ellipsis.IsValid() {
+			// append(a, b...) on two slices of integers, a allocated by this call (or empty): modelled as a
+			// reallocation holding the elements of a, then those of b
+			a, ok1 := c.eval(st, n.Args[0]).(SliceV)
+			b, ok2 := c.eval(st, n.Args[1]).(SliceV)
+			if !ok1 || !ok2 {
+				panic(verr("unsupported append form at %s", c.prog.pos(n)))
+			}
+			if _, isInt := intKindOf(a.Elem); !isInt {
+				panic(verr("append to a slice of %s at %s", a.Elem, c.prog.pos(n)))
+			}
+			c.oblige(st, "append", "fresh", Or(Le(brk0, a.Addr), Eq(a.Cap, ConstI(0))), n)
+			tot := Add(a.Len, b.Len)
+			ns := c.freshSlice(st, a.Elem, tot, tot)
+			hn := heapName(a.Elem)
+			h := c.heap(st, hn)
+			nh := Var(c.freshName(hn), SArr)
+			p := Var(c.freshName("p"), SInt)
+			inA := And(Le(ns.Addr, p), Lt(p, Add(ns.Addr, a.Len)))
+			inB := And(Le(Add(ns.Addr, a.Len), p), Lt(p, Add(ns.Addr, tot)))
+			st.assume(Forall([]*Term{p}, []*Term{Select(nh, p)},
+				Eq(Select(nh, p), Ite(inA, Select(h, Add(Sub(p, ns.Addr), a.Addr)),
+					Ite(inB, Select(h, Add(Sub(Sub(p, ns.Addr), a.Len), b.Addr)), Select(h, p))))))
+			st.heaps[hn] = nh
+			return []Value{ns}
+		}
 		if len(n.Args) != 2 || n.Ellipsis.IsValid() {
 			panic(verr("unsupported append form at %s", c.prog.pos(n)))
 		}
